@@ -138,6 +138,9 @@ type Kernel struct {
 	Handed  []Handed
 	conns   []*Conn
 	Latency time.Duration
+	// OnRequest, when set, is called in the requesting goroutine before every netlink request is handed to the
+	// kernel (E3: a scheduling point, i.e. a data-plane call that takes arbitrarily long)
+	OnRequest func()
 }
 
 // Handed is one usage report the kernel produced.
@@ -191,6 +194,7 @@ func (k *Kernel) NewConn() *Conn {
 }
 
 func (c *Conn) Fd() int { return c.fd }
+
 // Close is idempotent (a descriptor number must never be closed twice: the second close would hit whoever owns
 // the number by then), and the kernel end is closed only after the serving goroutine has left its read: a
 // goroutine still blocked in read(kfd) when the number is reused by the next world's socketpair would consume
@@ -212,6 +216,9 @@ func (c *Conn) Read(b []byte) (int, error) {
 }
 func (c *Conn) Write(b []byte) (int, error) { return syscall.Write(c.fd, b) }
 func (c *Conn) Writev(iovs []syscall.Iovec) (int, error) {
+	if f := c.k.OnRequest; f != nil {
+		f()
+	}
 	// gather (the request is small; one datagram)
 	var buf []byte
 	for _, v := range iovs {
